@@ -398,6 +398,20 @@ def first_iteration_runs(bi):
                 return any(at_least_one(a, depth + 1) for a in t.args)
             if n == "clamp" and len(t.args) == 3:
                 return at_least_one(t.args[1], depth + 1)
+        if o.kind in ("expr", "bin", "binop", "stmt") and isinstance(o.data, tuple):
+            st0 = bi.stmt(*o.data)
+            if st0.k == "assign" and st0.rv.k == "bin" and st0.rv.j["op"] in ("Sub", "SubWithOverflow") and fresh_vec_len(st0.rv.ops[1]):
+                return at_least_one(st0.rv.ops[0], depth + 1)
+        if o.kind == "local" and isinstance(o.data, int) and not o.path:
+            # `limit - result.len()` with the result still empty: (checked) subtraction of the fresh vector's length
+            for (db, di) in bi.defs.get(o.data, []):
+                if di < 0:
+                    continue
+                st0 = bi.stmt(db, di)
+                if st0.k == "assign" and st0.rv.k == "bin" and st0.rv.j["op"] in ("Sub", "SubWithOverflow") and fresh_vec_len(st0.rv.ops[1]):
+                    return at_least_one(st0.rv.ops[0], depth + 1)
+                if st0.k == "assign" and st0.rv.k == "use" and st0.rv.ops[0].place is not None and st0.rv.ops[0].place.proj == [] :
+                    return at_least_one(st0.rv.ops[0], depth + 1)
         return False
 
     for blk in body.blocks:
@@ -419,6 +433,15 @@ def first_iteration_runs(bi):
                 for sw, tr, fa in _bool_switches(bi, st.lhs.local):
                     if fa is not None:
                         dead |= bi.cfg.edge_dominated(sw, fa)
+            # `if limit == 0 { return None }` inside a taking helper, limit >= 1 on the first arrival
+            if st.k == "assign" and st.lhs.is_local() and st.rv.k == "bin" and st.rv.j["op"] in ("Eq", "Ne"):
+                a, b2 = st.rv.ops
+                x = a if b2.const_int() == 0 else b2 if a.const_int() == 0 else None
+                if x is not None and x.place is not None and at_least_one(x):
+                    for sw, tr, fa in _bool_switches(bi, st.lhs.local):
+                        gone = tr if st.rv.j["op"] == "Eq" else fa
+                        if gone is not None:
+                            dead |= bi.cfg.edge_dominated(sw, gone)
     return dead
 
 
@@ -447,6 +470,15 @@ def r15_5(prog, out):
         key = "pop-or-empty:%s" % prog.short(bid)
         _fa, deleted = flag_regions(prog, bi, flag)
         empty, _ne = emptiness_regions(prog, bi)
+        # `front()` / `front_mut()` / `first()` of the backlog's queue answering None is an exact emptiness test too
+        from mapstate import presence_switches
+        for fbb, ft in bi.calls(lambda c: c.path.split("::")[-1] in ("front", "front_mut", "back", "first", "last") and ("VecDeque" in c.path or "slice" in c.path or "Vec" in c.path)):
+            ro = prog.receiver_origin(bi, ft.args[0]) if ft.args else None
+            if ro is None or R.backlog not in (ro.cells() if hasattr(ro, "cells") else []):
+                continue
+            for sw, pt, at in presence_switches(bi, fbb, "option"):
+                if at is not None and at != "self":
+                    empty |= bi.cfg.edge_dominated(sw, at)
         esc = bi.cfg.escapes(0, pops | deleted | error_blocks(bi) | empty | first_iteration_runs(bi), after=False)
         if esc is None:
             out.holds(key, prog.loc(bid), "every normal path attempts a pop, or knows the backlog is empty / the subscription deleted")
